@@ -487,6 +487,10 @@ func E2EMain(args []string) {
 		childSeq()
 		return
 	}
+	if len(args) == 3 && args[0] == "evt" {
+		childEvt(args[1], args[2])
+		return
+	}
 	if len(args) == 2 && args[0] == "scenario" {
 		childScenario(args[1])
 		return
